@@ -42,7 +42,7 @@ var c12Mutations = []string{"flip-version", "flip-nonce", "flip-ciphertext", "fl
 func genC12(t *rapid.T) c12Case {
 	c := c12Case{Method: []string{"s_prod", "s_exch", "s_dyn"}[rapid.IntRange(0, 2).Draw(t, "method")],
 		Warm: rapid.IntRange(0, 2).Draw(t, "warm"), Cache0: rapid.Bool().Draw(t, "cache0"),
-		Which: []string{"cursor", "cursor", "call"}[rapid.IntRange(0, 2).Draw(t, "which")],
+		Which:    []string{"cursor", "cursor", "call"}[rapid.IntRange(0, 2).Draw(t, "which")],
 		Mutation: c12Mutations[rapid.IntRange(0, len(c12Mutations)-1).Draw(t, "mutation")]}
 	if c.Method == "s_dyn" {
 		c.DynKind = []string{"producer", "exchange"}[rapid.IntRange(0, 1).Draw(t, "dyn")]
